@@ -3,7 +3,7 @@ CONSTANTS
   Kinds = {"dup", "unknown"}
   Names = {"x"}
   Locs = {"a", "b"}
-  Spans = {1, 2}
+  SpanIds = {1, 2}
   MaxPool = 3
   MaxLeaves = 3
   MaxLoc = 1
